@@ -49,7 +49,7 @@ def run_property(ctx, mask, monitor, signature, streams, nontrivial=None):
         for i in range(ctx.budget(nq, nth)):
             rng = ctx.case_rng(name, i)
             if kw.get('twins'):
-                recipe, _ = X.gen_twins(rng, gen=name)
+                recipe, _ = X.gen_twins(rng, gen=name, odd=kw.get('twins') == 'odd')
             elif kw.get('burst'):
                 recipe, _ = X.gen_burst(rng, gen=name)
             elif kw.get('overlap'):
